@@ -112,9 +112,23 @@ func cmdFunc(args []string) {
 			fmt.Println("   UNSUPPORTED:", u)
 		}
 		for _, o := range vc.obls {
+			if *dump != "" && strings.Contains(o.Name, *dump) {
+				en := map[string]bool{}
+				for k, v := range vc.enabled {
+					en[k] = v
+				}
+				if o.Class == "CAND" {
+					en[o.Extra["cand"]] = true
+				}
+				os.WriteFile("/tmp/dump.smt2", []byte(vc.script(o, en, false)), 0o644)
+				fmt.Println("        dumped", o.Name, "to /tmp/dump.smt2")
+			}
 			if o.Class == "CAND" {
 				if *verbose {
 					fmt.Printf("   cand %-8s %s\n", o.Status, o.Name)
+					if o.Status == "error" {
+						fmt.Println("        ", truncate(o.Output, 300))
+					}
 				}
 				continue
 			}
